@@ -103,6 +103,15 @@ def c01(tier, rng):
                        hp=[dict(o='sleep', ms=rng.randrange(0, 50)), ret(pay='rep%d.%d' % (c, r))], nw=True)
             b.step('adv', ms=600)
             out.append(b.q().done())
+    # (e) concurrent callers with large, distinct requests and replies
+    for k, reps in ([(8, 2), (16, 2)] if tier == 'quick' else [(8, 6), (16, 6), (32, 6)]):
+        for r in range(reps):
+            b = B('C01', 'unary wide large k=%d #%d' % (k, r), ser=bool(r % 2))
+            for c in range(1, k + 1):
+                b.step('ucall', c=c, pay=pay(rng, 'q', rng.choice([1500, 4096, 9000, 65536])),
+                       hp=[dict(o='sleep', ms=rng.randrange(0, 5)), ret(pay=pay(rng, 'p', rng.choice([1500, 4096, 9000, 65536])))], nw=True)
+            b.step('adv', ms=100)
+            out.append(b.q().done())
     if tier != 'quick':
         for r in range(300):
             k = rng.randrange(1, 40)
